@@ -203,3 +203,99 @@ package ergo
 //@ loop 0 range updates
 //@   invariant [copy] forall k string :: has(remainingUpdates,k) <==> visited(k)
 //@   invariant [copy-val] forall k string :: visited(k) ==> remainingUpdates[k] == updates[k]
+
+// ---- replay (the step relation; C06, C07, C09, C12, C14, C20) ----
+
+//@ spec wfMaps(g *Graph) bool =
+//@     g != nil && g.Tasks != nil && g.Deps != nil && g.RDeps != nil && g.Meta != nil && g.Tombstones != nil
+//@ spec wfDeps(g *Graph) bool =
+//@     (forall f string :: has(g.Deps, f) ==> g.Deps[f] != nil) &&
+//@     (forall f string, h string :: has(g.Deps, f) && has(g.Deps, h) && f != h ==> g.Deps[f] != g.Deps[h])
+//@ spec tombExcluded(g *Graph) bool =
+//@     forall id string :: has(g.Tombstones, id) ==>
+//@        (!has(g.Tasks, id) && !has(g.Meta, id) && !has(g.Deps, id) &&
+//@         (forall f string :: has(g.Deps, f) ==> !has(g.Deps[f], id)))
+
+//@ func applyTombstone
+//@   requires [wf] graph != nil ==> wfMaps(graph) && wfDeps(graph)
+//@   ensures [nil] graph == nil ==> true
+//@   ensures [tombstoned] graph != nil ==> has(graph.Tombstones, id) && graph.Tombstones[id] == info
+//@   ensures [gone] graph != nil ==> !has(graph.Tasks, id) && !has(graph.Meta, id) && !has(graph.Deps, id)
+//@   ensures [no-edge-to] graph != nil ==> (forall f string :: has(graph.Deps, f) ==> !has(graph.Deps[f], id))
+//@   ensures [others-tasks] graph != nil ==> (forall k string :: k != id ==>
+//@        (has(graph.Tasks, k) <==> old(has(graph.Tasks, k))) && graph.Tasks[k] == old(graph.Tasks[k]))
+//@   ensures [others-meta] graph != nil ==> (forall k string :: k != id ==>
+//@        (has(graph.Meta, k) <==> old(has(graph.Meta, k))) && graph.Meta[k] == old(graph.Meta[k]))
+//@   ensures [others-tomb] graph != nil ==> (forall k string :: k != id ==>
+//@        (has(graph.Tombstones, k) <==> old(has(graph.Tombstones, k))) && graph.Tombstones[k] == old(graph.Tombstones[k]))
+//@   ensures [edges-only-removed] graph != nil ==> (forall f string :: has(graph.Deps, f) ==>
+//@        old(has(graph.Deps, f)) && graph.Deps[f] == old(graph.Deps[f]) &&
+//@        (forall x string :: has(graph.Deps[f], x) ==> old(has(graph.Deps[f], x))))
+//@   ensures [other-edges-kept] graph != nil ==> (forall f string, x string ::
+//@        old(has(graph.Deps, f) && has(graph.Deps[f], x)) && f != id && x != id ==> has(graph.Deps, f) && has(graph.Deps[f], x))
+//@   ensures [wf-kept] graph != nil ==> wfMaps(graph) && wfDeps(graph)
+//@   ensures [inner-frame] forall m map[string]struct{} :: (forall f string :: old(has(graph.Deps, f)) ==> old(graph.Deps[f]) != m) ==> unchangedMap(m)
+//@   modifies map[string]*Task at graph.Tasks, map[string]*TaskMeta at graph.Meta, map[string]TombstoneInfo at graph.Tombstones,
+//@            map[string]map[string]struct{} at graph.Deps, map[string]struct{}
+//@ loop 0 range graph.Deps
+//@   invariant [visited-clean] forall f string :: visited(f) && has(graph.Deps, f) ==> !has(graph.Deps[f], id)
+//@   invariant [outer-shrinks] forall f string :: has(graph.Deps, f) ==> old(has(graph.Deps, f)) && f != id && graph.Deps[f] == old(graph.Deps[f])
+//@   invariant [inner-shrinks] forall f string, x string :: has(graph.Deps, f) && has(graph.Deps[f], x) ==> old(has(graph.Deps[f], x))
+//@   invariant [kept] forall f string, x string :: old(has(graph.Deps, f) && has(graph.Deps[f], x)) && f != id && x != id ==> has(graph.Deps, f) && has(graph.Deps[f], x)
+//@   invariant [inner-frame] forall m map[string]struct{} :: (forall f string :: old(has(graph.Deps, f)) ==> old(graph.Deps[f]) != m) ==> unchangedMap(m)
+
+//@ func sortedKeys
+//@   ensures [members] forall x string :: contains(ret, x) <==> has(items, x)
+//@   ensures [sorted] forall i int, j int :: 0 <= i && i < j && j < len(ret) ==> ret[i] <= ret[j]
+//@   ensures [fresh] ret == nil || fresh(ret)
+//@   modifies nothing
+//@ loop 0 range items
+//@   invariant [members] forall x string :: contains(keys, x) <==> visited(x)
+//@   invariant [fresh] fresh(keys)
+
+//@ func applyLegacyTitleMigration
+//@   trusted string algebra of the legacy-title derivation is outside the verified subset; the contract states only its frame and the no-op on titled items
+//@   requires [wf] graph != nil
+//@   ensures [titled-untouched] forall t *Task :: trimSpace(old(t.Title)) != "" ==> t.Title == old(t.Title) && t.Body == old(t.Body)
+//@   ensures [only-graph-tasks] forall t *Task :: (forall k string :: has(graph.Tasks, k) ==> graph.Tasks[k] != t) ==>
+//@        t.Title == old(t.Title) && t.Body == old(t.Body)
+//@   modifies Task.Title, Task.Body
+
+//@ spec wfTasks(g *Graph) bool =
+//@     forall k string :: has(g.Tasks, k) ==> g.Tasks[k] != nil && g.Tasks[k].ID == k
+//@ spec stepSC(g *Graph, e Event, k string) bool =
+//@     g.Tasks[k].State == evState(e, k, old(g.Tasks[k].State)) &&
+//@     g.Tasks[k].ClaimedBy == evClaim(e, k, old(g.Tasks[k].ClaimedBy))
+
+//@ spec freshGraph(g *Graph) bool =
+//@     fresh(g) && fresh(g.Tasks) && fresh(g.Deps) && fresh(g.RDeps) && fresh(g.Meta) && fresh(g.Tombstones) &&
+//@     (forall k string :: has(g.Tasks, k) ==> fresh(g.Tasks[k]) && allocated(g.Tasks[k])) &&
+//@     (forall k string :: has(g.Meta, k) ==> g.Meta[k] == nil || (fresh(g.Meta[k]) && allocated(g.Meta[k]))) &&
+//@     (forall f string :: has(g.Deps, f) ==> fresh(g.Deps[f]) && allocated(g.Deps[f]))
+//@ spec replayInv(g *Graph) bool = wfMaps(g) && wfDeps(g) && wfTasks(g) && freshGraph(g) && tombExcluded(g)
+//@ spec rdepsWf(g *Graph) bool =
+//@     (forall t string :: has(g.RDeps, t) ==> g.RDeps[t] != nil && fresh(g.RDeps[t]) && allocated(g.RDeps[t])) &&
+//@     (forall f string, t string :: has(g.Deps, f) && has(g.RDeps, t) ==> g.Deps[f] != g.RDeps[t])
+
+//@ func replayEvents
+//@   ensures [nil-on-error] err != nil ==> ret0 == nil
+//@   ensures [wf] err == nil ==> wfMaps(ret0) && wfDeps(ret0) && wfTasks(ret0)
+//@   ensures [tomb-excluded] err == nil ==> tombExcluded(ret0)
+//@   modifies nothing
+//@ loop 0 range events
+//@   invariant [wf] wfMaps(graph) && wfDeps(graph) && wfTasks(graph)
+//@   invariant [fresh] freshGraph(graph)
+//@   invariant [tomb-excluded] tombExcluded(graph)
+//@   invariant [rdeps-empty] forall t string :: !has(graph.RDeps, t)
+//@   step [state-claim] forall k string :: old(has(graph.Tasks, k)) && has(graph.Tasks, k) ==>
+//@        graph.Tasks[k] == old(graph.Tasks[k]) && stepSC(graph, events[index-1], k)
+//@ loop 1 range graph.Deps
+//@   invariant [inv] replayInv(graph)
+//@   invariant [rdeps] rdepsWf(graph)
+//@   invariant [deps-kept] forall f string :: has(graph.Deps, f) ==> sameMapAsEntry(graph.Deps[f])
+//@ loop 2 range deps
+//@   invariant [inv] replayInv(graph)
+//@   invariant [rdeps] rdepsWf(graph)
+//@   invariant [deps-kept] forall f string :: has(graph.Deps, f) ==> sameMapAsEntry(graph.Deps[f])
+//@ loop 3 range graph.Tasks
+//@   invariant [fresh] freshGraph(graph)
